@@ -238,6 +238,7 @@ func TestC10(t *testing.T) {
 	// home objects per lint are approximated by walking the corpus round-robin: across a
 	// shard's programs every corpus object (hence every lint body that the corpus reaches) is linted
 	next := shard * 97
+	nextCRL := shard * 5
 	t.Run("programs", func(t *testing.T) {
 		rapid.Check(t, func(rt *rapid.T) {
 			var p program
@@ -247,8 +248,34 @@ func TestC10(t *testing.T) {
 				p.Filters = append(p.Filters, engine.DrawValidFilter(rt, names))
 			}
 			nobj := rapid.IntRange(6, 24).Draw(rt, "nobj")
+			// one program in four concentrates on revocation lists, one in eight on OCSP responses: lints of
+			// those kinds are few, so shared state inside them only shows when many workers lint that kind
+			// at the same time (the corpus CRLs are walked round-robin, findings included)
+			focus := rapid.IntRange(0, 7).Draw(rt, "focus")
 			for i := 0; i < nobj; i++ {
-				switch rapid.IntRange(0, 9).Draw(rt, "okind") {
+				okind := rapid.IntRange(0, 9).Draw(rt, "okind")
+				if focus <= 1 && okind < 8 {
+					if okind < 6 {
+						o := co.CRLs[nextCRL%len(co.CRLs)]
+						nextCRL++
+						p.Objects = append(p.Objects, engine.Case{Kind: o.Kind, DER: o.DER, Base: o.Name})
+					} else {
+						der, ops := gen.DrawBuiltCRL(rt)
+						p.Objects = append(p.Objects, engine.Case{Kind: gen.CRL, DER: der, Base: "built-crl", Ops: ops})
+					}
+					continue
+				}
+				if focus == 2 && okind < 8 {
+					if okind < 4 {
+						o := co.OCSPs[rapid.IntRange(0, len(co.OCSPs)-1).Draw(rt, "ocsp")]
+						p.Objects = append(p.Objects, engine.Case{Kind: o.Kind, DER: o.DER, Base: o.Name})
+					} else {
+						der, ops := gen.DrawBuiltOCSP(rt)
+						p.Objects = append(p.Objects, engine.Case{Kind: gen.OCSP, DER: der, Base: "built-ocsp", Ops: ops})
+					}
+					continue
+				}
+				switch okind {
 				case 0:
 					o := co.CRLs[rapid.IntRange(0, len(co.CRLs)-1).Draw(rt, "crl")]
 					p.Objects = append(p.Objects, engine.Case{Kind: o.Kind, DER: o.DER, Base: o.Name})
